@@ -159,7 +159,8 @@ type fakeNode struct {
 
 	handlerCalls int
 	cancelAnswer []bool
-	cancelTimes  []time.Time // virtual time of every CancelBlockRequest call
+	cancelTimes  []time.Time         // virtual time of every CancelBlockRequest call
+	onCancel     func(entering bool) // harness hook: called on entry to and return from CancelBlockRequest
 }
 
 func (n *fakeNode) ID() uuid.UUID { return n.id }
@@ -173,6 +174,10 @@ func (n *fakeNode) request(handler bitcoin_reader.HandleBlock, onStop bitcoin_re
 }
 
 func (n *fakeNode) CancelBlockRequest(ctx context.Context, hash bitcoin.Hash32) bool {
+	if n.onCancel != nil {
+		n.onCancel(true)
+		defer n.onCancel(false)
+	}
 	vsched.Yield() // the real node takes its own lock here and may have to wait: a free switch
 	n.mu.Lock()
 	defer n.mu.Unlock()
